@@ -123,6 +123,14 @@ theorem SameUsages.admitDelete (s : Store) (r : Res) (p : String) (lo po : Bool)
       · exact .refl s
     · exact .refl s
 
+theorem SameUsages.touchRes (s : Store) (g k n : String) (l : Labels) : SameUsages s (s.touchRes g k n l).1 := by
+  unfold Store.touchRes
+  split
+  · exact .refl s
+  · split
+    · exact .refl s
+    · exact .putR_bump s _
+
 theorem SameUsages.deleteRes (s : Store) (g k n p : String) (lo po : Bool) (st : Option Nat) :
     SameUsages s (s.deleteRes g k n p lo po st).1 := by
   unfold Store.deleteRes
